@@ -141,6 +141,7 @@ type ContentOpts struct {
 	Boundaries      bool // sometimes include varint-boundary sized sections
 	BigBoundary     bool // allow the 2 MiB boundary
 	RootsFromBlocks bool
+	TwinRoots       bool // some roots are codec twins of blocks (same multihash, another CID)
 }
 
 // MakeContent draws a content.
@@ -211,7 +212,18 @@ func MakeContent(r *rand.Rand, o ContentOpts) Content {
 	}
 	for i := 0; i < nr; i++ {
 		if len(c.Blocks) > 0 && (o.RootsFromBlocks || r.Intn(2) == 0) {
-			c.Roots = append(c.Roots, c.Blocks[r.Intn(len(c.Blocks))].Cid)
+			root := c.Blocks[r.Intn(len(c.Blocks))].Cid
+			if o.TwinRoots && r.Intn(3) == 0 {
+				// a root that is NOT a block's CID but shares its multihash (other codec / CID version)
+				if sc, _, err := refcar.SplitCid(root); err == nil {
+					codec := uint64(0x71)
+					if sc.Codec == 0x71 {
+						codec = 0x55
+					}
+					root = refcar.MakeCidV1(codec, sc.MhCode, sc.Digest)
+				}
+			}
+			c.Roots = append(c.Roots, root)
 		} else {
 			bo := o.Block
 			bo.Size = 8
